@@ -351,6 +351,7 @@ package ggql
 //@   ensures[old-kept] forall k0 int {old(tl.list[k0])} :: 0 <= k0 && k0 < old(len(tl.list)) ==> (exists k int {tl.list[k]} :: 0 <= k && k < len(tl.list) && tl.list[k] == old(tl.list[k0]))
 //@   ensures[new-added] forall i int {ts[i]} :: 0 <= i && i < len(ts) ==> (exists k int {tl.list[k]} :: 0 <= k && k < len(tl.list) && tl.list[k] == ts[i])
 //@   ensures[nothing-else] forall k int {tl.list[k]} :: 0 <= k && k < len(tl.list) ==> ((exists k0 int {old(tl.list[k0])} :: 0 <= k0 && k0 < old(len(tl.list)) && tl.list[k] == old(tl.list[k0])) || (exists i int {ts[i]} :: 0 <= i && i < len(ts) && tl.list[k] == ts[i]))
+//@   ensures[dict-one] len(ts) == 1 ==> has(tl.dict, ts[0].Name()) && tl.dict[ts[0].Name()] == ts[0] && (forall k string {tl.dict[k]} :: k != ts[0].Name() ==> tl.dict[k] == old(tl.dict[k]) && (has(tl.dict, k) <==> old(has(tl.dict, k))))
 //@   assigns fresh, tl.list, tl.dict[]
 
 //@ spec implementor(x Type, t *Interface) bool = is(x, *Object) && as(x, *Object) != nil && (exists i int {as(x, *Object).Interfaces[i]} :: 0 <= i && i < len(as(x, *Object).Interfaces) && as(x, *Object).Interfaces[i] == box(t))
